@@ -40,6 +40,10 @@ def run_case(cs):
     zone = rng.choice(ZONES)
     clock.set_zone(zone)
     now = rng.randint(1_000_000_000, 1_900_000_000)
+    if rng.random() < 0.15:
+        import calendar
+
+        now = calendar.timegm((rng.choice([2021, 2024, 2025, 2027, 2028]), 1, 1, 0, 0, 0)) + rng.randint(-3 * 86400, 3 * 86400)
     same_second = rng.random() < 0.5
     clock.freeze(now)
     long_seq = rng.random() < 0.12
